@@ -178,7 +178,7 @@ def check_owned(recipe) -> list[Fail]:
                 for k, v in zip(keys, vals):
                     if k in res["put_ok"]:
                         must[k] = v
-            elif kind not in ("read_all", "read_fail_body", "fail_end_read"):
+            elif kind not in ("read_all", "read_fail_body", "fail_end_read", "fail_begin_write", "fail_begin_read"):
                 for k, v in zip(keys, vals):
                     may[k] = v
             if res.get("seen") is not None:
@@ -382,7 +382,7 @@ LEGS = [
     Leg(
         "owned", check_owned, classify_owned, enumerate=enum_owned, exhaustive=True,
         shards={"quick": 16, "thorough": 32},
-        rule="ALL sequences of k<=2 (quick: 3 handles) / k<=3 (thorough: 4 handles) sessions over 9 session kinds (read, write1, write2, fail in body / encoder / flush-time backend write / end_write / reader body / end_read); lock probed from a fresh process after every session; non-trivial = failing session followed by a session on another handle (or by the probe process), or a stale handle writing after another writer",
+        rule="ALL sequences of k<=2 (quick: 3 handles) / k<=3 (thorough: 4 handles) sessions over 11 session kinds (read, write1, write2, fail in body / encoder / flush-time backend write / end_write / reader body / end_read / begin_write / begin_read); lock probed from a fresh process after every session; non-trivial = failing session followed by a session on another handle (or by the probe process), or a stale handle writing after another writer",
     ),
     Leg(
         "owned_rand", check_owned, classify_owned, strategy=strat_owned,
